@@ -6,6 +6,7 @@ import Mieru.Gen.Consts
 import Mieru.Gen.Facts
 import Mieru.Gen.UdpFacts
 import Mieru.Gen.RecvBuf
+import Mieru.Gen.RtoFacts
 import Mieru.Proofs.Rto
 /-!
 # C02 — UDP transport: reliable, ordered, exactly-once stream over a faulty network; progress
@@ -585,6 +586,37 @@ example : (Flow.recvOp ⟨2, 1, 1, 2⟩ (Flow.recvOp ⟨2, 1, 1, 2⟩ (Flow.recv
 Assumption (explicit): durations below 2^52 ns, so that the float64 products of the code are exact and
 `time.Duration(float64(rto) * 1.5)` = `3 * rto / 2`; `srtt` / `meanDeviation` are arbitrary inputs (the float32
 smoothing of `UpdateRTT` is not modelled). -/
+
+/-- TIE (regenerated on every run by tools/goextract/rtofacts.go → `Gen.RtoFacts`): the statements of
+    `(*RTTStats).RTO`, the defining expressions of the five constants `Mieru.Model.Rto` copies, the two calls by
+    which NewSession configures the estimator (`maxAckDelay = periodicOutputInterval`, multiplier =
+    `txTimeoutBackOff`), BOTH `txTimeout` stores of the output loop (the factor is converted to `time.Duration`
+    before the multiplication, then clamped by `maxBackOffDuration`) and the abandonment test are what the model
+    was written from; the model's constants are these values in nanoseconds. A change to any of them — another
+    multiplier, an upper clamp inside `RTO()`, a clamp removed from one of the two stores, `>` for `>=` in the
+    abandonment test — makes this theorem stop checking. -/
+theorem rto_model_tied_to_source :
+    Gen.RtoFacts.rtoBody =
+      ["r.mu.Lock()", "defer r.mu.Unlock()",
+       "if r.SmoothedRTT() == 0 { return 2 * defaultInitialRTT }",
+       "rto := r.SmoothedRTT() + mathext.Max(4*r.MeanDeviation(), 10*time.Millisecond)",
+       "rto += r.MaxAckDelay()",
+       "return time.Duration(float64(rto) * r.rtoMultiplier)"] ∧
+    Gen.RtoFacts.constExprs =
+      [("defaultInitialRTT", "time.Second"), ("txCountLimit", "20"),
+       ("periodicOutputInterval", "1 * time.Millisecond"), ("txTimeoutBackOff", "1.5"),
+       ("maxBackOffDuration", "10 * time.Second")] ∧
+    Gen.RtoFacts.setterCalls =
+      [("SetMaxAckDelay", "periodicOutputInterval"), ("SetRTOMultiplier", "txTimeoutBackOff")] ∧
+    Gen.RtoFacts.txTimeoutStores =
+      ["mathext.Min(s.rttStat.RTO()*time.Duration(math.Pow(txTimeoutBackOff, float64(iter.txCount))), maxBackOffDuration)",
+       "mathext.Min(s.rttStat.RTO()*time.Duration(math.Pow(txTimeoutBackOff, float64(seg.txCount))), maxBackOffDuration)"] ∧
+    Gen.RtoFacts.abandonTests = ["iter.txCount >= txCountLimit"] ∧
+    Rto.defaultInitialRTT = 1000000000 ∧ Rto.txCountLimit = 20 ∧ Rto.maxAckDelay = 1 * 1000000 ∧
+    2 * Rto.backOffNum = 3 * Rto.backOffDen ∧ Rto.maxBackOff = 10 * 1000000000 ∧
+    Rto.minVarTerm = 10 * 1000000 ∧ Rto.devFactor = 4 := by
+  refine ⟨by decide, by decide, by decide, by decide, by decide, by decide, by decide, by decide, by decide,
+    by decide, by decide, by decide⟩
 
 /-- `RTO()` exactly: 2 s when there is no sample, else ⌊1.5·(srtt + max(4·mdev, 10 ms) + maxAckDelay)⌋. -/
 theorem rto_formula (srtt mdev mad : Nat) :
